@@ -364,7 +364,7 @@ func (r *Run) c15Echo() {
 
 func runC15(r *Run) {
 	installHooks()
-	r.st.Rule = "real keepalive loop with interval 100 ms / timeout 250 ms (and timeout = interval) over TCP and WebSocket against peers that answer always, never, stop after 3, answer 150 ms late (after the next heartbeat was sent), answer always on the connection re-established after a drop (no token getter: the non-resume path), and answer always after a keepalive-detected death followed by a recovery through full authentication (resume rejected as unauthenticated); tick times (ka.tick hook), pong times, heartbeat ids (request id and body) and recycles are replayed by Model/Keepalive.v tick by tick; direct oracles: fresh ids with matching heartbeat id, one heartbeat per interval, detection within interval+timeout+slack of the first unanswered heartbeat, no recycle for an answering peer; TCP echo of the peer's heartbeat request. Also: a peer that answers every request but no heartbeat, and one that sends heartbeat requests of its own but answers none, must be recycled; Keepalive/KeepaliveTimeout options in both orders; WebSocket keepalive with MinGzipSize(4): the ping payload is the heartbeat message itself. distinct = distinct request lines"
+	r.st.Rule = "real keepalive loop with interval 100 ms / timeout 250 ms (and timeout = interval) over TCP and WebSocket against peers that answer always, never, stop after 3, answer 150 ms late (after the next heartbeat was sent), answer always on the connection re-established after a drop (no token getter: the non-resume path), and answer always after a keepalive-detected death followed by a recovery through full authentication (resume rejected as unauthenticated); tick times (ka.tick hook), pong times, heartbeat ids (request id and body) and recycles are replayed by Model/Keepalive.v tick by tick; direct oracles: fresh ids with matching heartbeat id, one heartbeat per interval, detection within interval+timeout+slack of the first unanswered heartbeat, no recycle for an answering peer; TCP echo of the peer's heartbeat request. Also: a peer that answers every request but no heartbeat, and one that sends heartbeat requests of its own but answers none, must be recycled; Keepalive/KeepaliveTimeout options in both orders; WebSocket keepalive with MinGzipSize(4): the ping payload is the heartbeat message itself. Schedules forced with the ka.after-check hook and logger holds: a verdict formed while the close callback's recovery is authenticating and acted on after it completed; a heartbeat write failing on a just-dropped connection and acted on after the recovery - the new connection must stay. A peer answering every heartbeat after 150 ms: on the first connection, after a recovery, and after a recovery whose session answer took longer than the timeout. Histories in which a tick and the completion of a recovery on another goroutine lie within 5 ms are not compared with the sequential model (counted). distinct = distinct request lines"
 	I, T := 100*time.Millisecond, 250*time.Millisecond
 	always := func(c, n int) (bool, time.Duration) { return true, 0 }
 	never := func(c, n int) (bool, time.Duration) { return c > 0, 0 } // only the first connection is dead
